@@ -38,7 +38,9 @@ TInvertAsBuilt == /\ "inverse_divides_by_norm" \in Deviations
                   /\ UNCHANGED ord /\ depth' = depth + 1
                   /\ Logged
 
-TraceNext == TMulRight \/ TMulLeft \/ TConj \/ TInvert \/ TInvertAsBuilt \/ TRestore \/ TObserve
+TDerive   == IsEvent("Derive") /\ Derive(Ev.route) /\ Logged
+TNormalize == IsEvent("Normalize") /\ Normalize /\ Logged
+TraceNext == TDerive \/ TNormalize \/ TMulRight \/ TMulLeft \/ TConj \/ TInvert \/ TInvertAsBuilt \/ TRestore \/ TObserve
 TraceSpec == TraceInit /\ [][TraceNext]_tvars
 Progress == LET f == TLCGet(1) IN IF f[tid] < l THEN TLCSet(1, [f EXCEPT ![tid] = l]) ELSE TRUE
 Accepted == LET f == TLCGet(1) IN
